@@ -23,6 +23,7 @@ import (
 	ethcrypto "github.com/ethereum/go-ethereum/crypto"
 	dbm "github.com/cometbft/cometbft-db"
 
+	transfertypes "github.com/cosmos/ibc-go/v7/modules/apps/transfer/types"
 	stakingprecompile "github.com/haqq-network/haqq/precompiles/staking"
 	"github.com/haqq-network/haqq/utils"
 	evmtypes "github.com/haqq-network/haqq/x/evm/types"
@@ -200,6 +201,36 @@ func (r *evmcRun) project(ctx sdk.Context) M {
 					}
 				}
 			}
+			// ICS-20 transfer authorization (allocation of transfer/channel-0)
+			em["ibc"], ev["ibc"], ex["ibc"] = "none", []string{}, "-"
+			if a, exp := app.AuthzKeeper.GetAuthorization(ctx, r.addrs[e], r.addrs[g], sdk.MsgTypeURL(&transfertypes.MsgTransfer{})); a != nil {
+				if exp == nil {
+					ex["ibc"] = "never"
+				} else {
+					ex["ibc"] = fmt.Sprint(exp.Unix() - GenesisTime.Unix())
+				}
+				if exp != nil && !exp.After(ctx.BlockTime()) {
+					em["ibc"] = "expired"
+				} else if ta, ok := a.(*transfertypes.TransferAuthorization); ok {
+					em["ibc"] = "other"
+					chs := []string{}
+					for _, al := range ta.Allocations {
+						chs = append(chs, al.SourceChannel)
+						if al.SourcePort == "transfer" && al.SourceChannel == "channel-0" {
+							amt := al.SpendLimit.AmountOf(utils.BaseDenom)
+							if amt.Equal(transfertypes.UnboundedSpendLimit()) {
+								em["ibc"] = "unl"
+							} else {
+								em["ibc"] = bigStr(amt)
+							}
+						}
+					}
+					sort.Strings(chs)
+					ev["ibc"] = chs
+				} else {
+					em["ibc"] = "other"
+				}
+			}
 			gm[e] = em
 			gvm[e] = ev
 			gxm[e] = ex
@@ -304,9 +335,24 @@ func evmcOne(tw *TraceWriter, scn int, src string, sc evmcScenario) {
 			c := coin(g.Limit)
 			lim = &c
 		}
-		sa, err := stakingtypes.NewStakeAuthorization([]sdk.ValAddress{w.Vals[g.Val%len(w.Vals)].ValAddr()}, nil, stakeTypeOf[g.Type], lim)
-		if err != nil {
-			panic(err)
+		var sa authz.Authorization
+		if g.Type == "ibc" {
+			// an ICS-20 transfer authorization for one channel (g.Val = 0: the channel of the scenario)
+			limit := sdk.NewCoins(sdk.NewCoin(utils.BaseDenom, transfertypes.UnboundedSpendLimit()))
+			if lim != nil {
+				limit = sdk.NewCoins(*lim)
+			}
+			ch := "channel-0"
+			if g.Val != 0 {
+				ch = fmt.Sprintf("channel-%d", 5+g.Val)
+			}
+			sa = &transfertypes.TransferAuthorization{Allocations: []transfertypes.Allocation{{SourcePort: "transfer", SourceChannel: ch, SpendLimit: limit}}}
+		} else {
+			var err error
+			sa, err = stakingtypes.NewStakeAuthorization([]sdk.ValAddress{w.Vals[g.Val%len(w.Vals)].ValAddr()}, nil, stakeTypeOf[g.Type], lim)
+			if err != nil {
+				panic(err)
+			}
 		}
 		exp := n.Time.Add(1000 * time.Hour)
 		if g.Expired {
